@@ -1204,6 +1204,40 @@ class Executor:
             if isinstance(a, Str) and isinstance(b, Str):
                 used("str/String PartialEq::eq")
                 return [Outcome(st, (a.s == b.s) == (meth == "eq"))]
+        if meth in ("eq", "ne") and len(args) == 2 and trait == "PartialEq":
+            a, b = deref(args[0]), deref(args[1])
+            if isinstance(a, (Enum, Int, Tup)) and isinstance(b, (Enum, Int, Tup)) and _concrete(a) and _concrete(b):
+                used("derived PartialEq on concrete enums / tuples (std)")
+                return [Outcome(st, (_struct_eq(a, b)) == (meth == "eq"))]
+        # ---- concrete strings (symbols, names): the few str / String methods a lookup may use
+        if args and isinstance(deref(args[0]), Str):
+            s0 = deref(args[0])
+            while isinstance(s0, Ref):
+                s0 = self.load(st, s0)
+            if isinstance(s0, Str):
+                if meth == "len":
+                    used("str::len")
+                    return [Outcome(st, Int(len(s0.s.encode("utf-8")), "usize"))]
+                if meth == "chars":
+                    used("str::chars")
+                    return [Outcome(st, GIter([(True, Int(ord(ch), "char")) for ch in s0.s], by_ref=False))]
+                if meth == "bytes":
+                    used("str::bytes")
+                    return [Outcome(st, GIter([(True, Int(b_, "u8")) for b_ in s0.s.encode("utf-8")], by_ref=False))]
+                if meth in ("as_str", "deref", "as_ref", "borrow", "to_string", "clone", "into", "from", "to_owned"):
+                    used("String/str identity conversions")
+                    return [Outcome(st, s0)]
+                if meth in ("eq_ignore_ascii_case", "starts_with", "ends_with", "contains") and len(args) == 2:
+                    o1 = deref(args[1])
+                    while isinstance(o1, Ref):
+                        o1 = self.load(st, o1)
+                    if isinstance(o1, Str):
+                        used("str::" + meth)
+                        a_, b_ = s0.s, o1.s
+                        if meth == "eq_ignore_ascii_case":
+                            fold = lambda t: "".join(ch.lower() if ch.isascii() else ch for ch in t)
+                            return [Outcome(st, fold(a_) == fold(b_))]
+                        return [Outcome(st, {"starts_with": a_.startswith(b_), "ends_with": a_.endswith(b_), "contains": b_ in a_}[meth])]
         if meth == "is_empty" and isinstance(deref(args[0]), Str):
             used("String::is_empty")
             return [Outcome(st, deref(args[0]).s == "")]
@@ -1409,3 +1443,23 @@ def _wrap(v, ty):
     if m.group(1) == "i" and v >= 1 << (bits - 1):
         v -= 1 << bits
     return v
+
+
+def _concrete(v):
+    if isinstance(v, Enum):
+        return all(_concrete(x) for x in v.payload)
+    if isinstance(v, Tup):
+        return all(_concrete(x) for x in v.vals)
+    return isinstance(v, (Int, bool, Str))
+
+
+def _struct_eq(a, b):
+    if isinstance(a, Enum) and isinstance(b, Enum):
+        return a.variant == b.variant and len(a.payload) == len(b.payload) and all(_struct_eq(x, y) for x, y in zip(a.payload, b.payload))
+    if isinstance(a, Tup) and isinstance(b, Tup):
+        return len(a.vals) == len(b.vals) and all(_struct_eq(x, y) for x, y in zip(a.vals, b.vals))
+    if isinstance(a, Int) and isinstance(b, Int):
+        return a.v == b.v
+    if isinstance(a, Str) and isinstance(b, Str):
+        return a.s == b.s
+    return a == b
